@@ -703,6 +703,14 @@ impl FdlActiveStation {
             current_address + 1
         };
 
+        if next_address == self.p.address
+            || (current_address == next_station && next_station != self.p.address)
+        {
+            // We have either wrapped around to ourselves or the address we polled last turned
+            // out to be our new successor, so the end of the GAP has been reached.
+            return GapState::Waiting { rotation_count: 0 };
+        }
+
         if next_address >= next_station && next_station > self.p.address {
             // We have reached the end of the GAP, enter waiting state.
             GapState::Waiting { rotation_count: 0 }
